@@ -510,6 +510,7 @@ func valueTable(c *core.Ctx, l *core.Ledger) map[int64]*valueRow {
 		// constructor: stores typ const and one payload field
 		var code int64 = -1
 		field := ""
+		payload := ""
 		core.Instrs(fn, func(in ssa.Instruction) {
 			st, ok := in.(*ssa.Store)
 			if !ok {
@@ -524,10 +525,20 @@ func valueTable(c *core.Ctx, l *core.Ledger) map[int64]*valueRow {
 				code = k
 			} else {
 				field = core.FieldName(fld)
+				payload = core.Sym(st.Val)
 			}
 		})
 		if code < 0 || field == "" {
 			continue
+		}
+		// the payload is the argument itself (through a total, bit-preserving conversion): a constructor that
+		// looks at the value — to canonicalise NaNs, to clamp, to default — changes what is encoded
+		if code == 2 || code == 3 || code == 4 || code == 6 || code == 8 || code == 10 {
+			okPayload := payload == "$0" || payload == "math.Float64bits($0)" || len(fn.Blocks) > 1 && core.TypeLabel(fn.Signature.Params().At(0).Type()) == "bool"
+			if core.TypeLabel(fn.Signature.Params().At(0).Type()) != "bool" && len(fn.Blocks) != 1 {
+				okPayload = false
+			}
+			l.Check(okPayload, "VALUE-TAB", "ctor-payload:"+n, c.Rel(fn.Pos()), "the constructor stores its argument unconditionally: "+payload, "the constructor does not store its argument as it is (payload "+payload+fmt.Sprintf(", %d basic blocks): some values are altered before they are encoded", len(fn.Blocks)))
 		}
 		r := rows[code]
 		if r == nil {
